@@ -116,6 +116,19 @@ def run(ctx, ck) -> None:
     # ------------------------------------------------------------------ L3
     _generic_builder(ck, generic.node)
 
+    # ------------------------------------------------------------------ L4 the Toeplitz operator has one dense form and several matrix-free
+    # methods: as_matrix() is the matrix of mv only if the dense builder is the band matrix and every windowed kernel reads
+    # and writes inside its buffers and returns samples it computed (shared with C09.Z9-Z12)
+    from . import c09
+
+    sub = type(ck)(ck.pid)
+    c09.run(ctx, sub)
+    for o in sub.obs:
+        if o.rule.split('.')[-1] in ('Z9', 'Z10', 'Z11', 'Z12'):
+            o.rule = f'{ck.pid}.L4'
+            ck.obs.append(o)
+    ck.floor('L4', sum(1 for o in ck.obs if o.rule.endswith('L4')), 8, 'Toeplitz dense builder and kernel obligations')
+
 
 def _lazy_dense_by_evaluation(ctx, ck, owner, fn, generic_fn) -> bool:
     """A dense form written once for a family of lazy operators (a template with per-class hooks or class constants): it is
